@@ -168,6 +168,7 @@ def parseEntry (s : String) : Option EObs :=
 
 def parseStoreSec (toks : List String) : Option SObs :=
   match toks with
+  | ["ERR", _] => some { ok := false }     -- the store refuses to load (reported by the C02 judge)
   | leo :: hw :: es => do
     let leo ← leo.toNat?; let hw ← hw.toNat?
     let es ← es.mapM parseEntry
